@@ -1,6 +1,9 @@
 import EupsModel.Lemmas.SetupFrame
 import EupsModel.Lemmas.SetupKeep
 import EupsModel.Lemmas.SetupInverse
+import EupsModel.Lemmas.SetupLines
+import EupsModel.Lemmas.SetupShell
+import EupsModel.Lemmas.SetupKeepD
 /-! C04 — setup changes only what it was asked to (keep, just, max-depth, bystanders).
 Model: `EupsModel/Model/Setup.lean`; lemmas: `EupsModel/Lemmas/SetupInv.lean`, `SetupFrame.lean`, `SetupKeep.lean`.
 
@@ -77,6 +80,85 @@ theorem C04_just (db : Db) (fuel : Nat) (fwd : Bool) (r : Request) (hN : r.maxDe
   cases hw
   exact hm rfl
 
+/-! ## frame, the rest of the environment: foreign elements, bystanders' elements, shell functions -/
+
+open Classical in
+/-- the elements of a path variable that do not belong to a name in `S`: foreign strings and own elements of other products -/
+noncomputable def outsideOf (S : Name → Prop) : Elem → Bool
+  | .own p _ => decide (¬ S p.1)
+  | .foreign _ => true
+
+/-- In every path variable the sub-list (duplicates removed, order kept) of the elements that are foreign or belong to a
+product not reachable from the requested one is the same before and after — setup and unsetup, every mode, every fuel;
+for tables that contribute through their own `${PRODUCT_DIR}` (`OwnTables`: a literal contributed by a table of the
+closure is, of course, added / removed). -/
+theorem C04_frame_paths_partial (db : Db) (hown : OwnTables db) (fuel : Nat) (fwd : Bool) (r : Request) (e : Setup.Env)
+    (s' : St) (h : (if fwd then runSetup db fuel r e else runUnsetup db fuel r e) = .ok s') (var : Str) :
+    partBy (outsideOf (fun n => ∃ k, Within db r.name k n)) s'.env var =
+      partBy (outsideOf (fun n => ∃ k, Within db r.name k n)) e var := by
+  have key := setup_subjInv (r.cfg db) (fun _ n => ∃ k, Within db r.name k n) _
+    (within_closedAt_unbounded (r.cfg db) r.name)
+    (partBy_subjInvAt (r.cfg db) _ hown (outsideOf (fun n => ∃ k, Within db r.name k n))
+      (fun _ p rel hp => by simp [outsideOf, hp]) e) fuel
+  cases fwd with
+  | true => exact key true 0 false r.vro r.name r.version none (St.init e) s' ⟨0, Within.root⟩ (init_alreadyOK db e) (fun _ => rfl) h var
+  | false => exact key false 0 false r.vro r.name none none (St.init e) s' ⟨0, Within.root⟩ (init_alreadyOK db e) (fun _ => rfl) h var
+
+/-- … and with `--max-depth N` / `--just` the same holds for everything that does not belong to a product within `N`
+edges of the requested one -/
+theorem C04_depth_paths_partial (db : Db) (hown : OwnTables db) (fuel : Nat) (fwd : Bool) (r : Request) (N : Nat)
+    (hN : r.maxDepth = some N) (e : Setup.Env) (s' : St)
+    (h : (if fwd then runSetup db fuel r e else runUnsetup db fuel r e) = .ok s') (var : Str) :
+    partBy (outsideOf (fun n => ∃ k, Within db r.name k n ∧ k ≤ N)) s'.env var =
+      partBy (outsideOf (fun n => ∃ k, Within db r.name k n ∧ k ≤ N)) e var := by
+  have key := setup_subjInv (r.cfg db) (fun k n => Within db r.name k n ∧ k ≤ N) _
+    (within_closedAt (r.cfg db) r.name N hN)
+    (partBy_subjInvAt (r.cfg db) _ hown (outsideOf (fun n => ∃ k, Within db r.name k n ∧ k ≤ N))
+      (fun k p rel hp => by
+        have : ∃ k, Within db r.name k p.1 ∧ k ≤ N := ⟨k, hp⟩
+        simp [outsideOf, this]) e) fuel
+  cases fwd with
+  | true => exact key true 0 false r.vro r.name r.version none (St.init e) s' ⟨Within.root, Nat.zero_le _⟩ (init_alreadyOK db e) (fun _ => rfl) h var
+  | false => exact key false 0 false r.vro r.name none none (St.init e) s' ⟨Within.root, Nat.zero_le _⟩ (init_alreadyOK db e) (fun _ => rfl) h var
+
+/-- Shell functions (aliases): a function that no table of a reachable product defines with `addAlias` is neither
+defined, redefined nor removed by the commands a successful request emits — whatever the caller's functions `f` were.
+Setup and unsetup, every database, mode, fuel. -/
+theorem C04_frame_aliases (db : Db) (fuel : Nat) (fwd : Bool) (r : Request) (e : Setup.Env) (s' : St) (key : Str)
+    (hkey : ¬ AliasOf db (fun _ n => ∃ k, Within db r.name k n) key) (f : Str → Option Str)
+    (h : (if fwd then runSetup db fuel r e else runUnsetup db fuel r e) = .ok s') :
+    ((appSetup db fuel fwd r e).apply (Shell.of e f)).funcs key = f key := by
+  have hfree0 : AliasFree key (St.init e) := ⟨rfl, by simp [St.init]⟩
+  have hnd0 : AliasND (St.init e) := by simp [AliasND, St.init]
+  have key1 := setup_aliasFree (r.cfg db) (fun _ n => ∃ k, Within db r.name k n) key
+    (within_closedAt_unbounded (r.cfg db) r.name) hkey fuel
+  have hfree : AliasFree key s' ∧ AliasND s' := by
+    cases fwd with
+    | true =>
+      have h' : setup (r.cfg db) fuel true 0 false r.vro r.name r.version none (St.init e) = .ok s' := h
+      exact ⟨key1 true 0 false r.vro r.name r.version none (St.init e) s' ⟨0, Within.root⟩ (init_alreadyOK db e) hfree0 h',
+        setup_aliasND (r.cfg db) fuel true 0 false r.vro r.name r.version none (St.init e) s' hnd0 (by rw [h']; rfl)⟩
+    | false =>
+      have h' : setup (r.cfg db) fuel false 0 false r.vro r.name none none (St.init e) = .ok s' := h
+      exact ⟨key1 false 0 false r.vro r.name none none (St.init e) s' ⟨0, Within.root⟩ (init_alreadyOK db e) hfree0 h',
+        setup_aliasND (r.cfg db) fuel false 0 false r.vro r.name none none (St.init e) s' hnd0 (by rw [h']; rfl)⟩
+  have hem : appSetup db fuel fwd r e = .cmds (delta e s') := by unfold appSetup; rw [h]
+  rw [hem]
+  have := (runCmds_delta e s' f hfree.2).2.2.2.2 key
+  show (runCmds (delta e s') (Shell.of e f)).funcs key = f key
+  rw [this, hfree.1.1]
+  simp [hfree.1.2]
+
+/-- `setup --type t…` (`Db.withTypes`: the tables read under the setup types of the command line): the frame clause with
+reachability taken in the database as declared — whatever the `if (type == t)` blocks select, a product that no
+dependency line of any block leads to is untouched.  (Every theorem of this file holds of `db.withTypes types` as it
+stands, being for every database; this one relates its hypothesis to the declared tables.) -/
+theorem C04_frame_types (db : Db) (types : List Str) (fuel : Nat) (fwd : Bool) (r : Request) (e : Setup.Env) (s' : St)
+    (m : Name) (hm : ∀ k, ¬ Within db r.name k m)
+    (h : (if fwd then runSetup (db.withTypes types) fuel r e else runUnsetup (db.withTypes types) fuel r e) = .ok s') :
+    SameFor m e s'.env :=
+  C04_frame (db.withTypes types) fuel fwd r e s' m (fun k hw => hm k (within_withTypes db types r.name k m hw)) h
+
 /-! ## keep -/
 
 /-- all `SETUP_*` records of the environment name declared versions -/
@@ -106,12 +188,38 @@ private theorem selectVRO_keep (inexact : Bool) (tags : List Str) : VroEnt.keep 
   have hd : ∀ l : List VroEnt, VroEnt.keep ∈ dedup [] (VroEnt.keep :: l) := by intro l; simp [dedup]
   cases inexact <;> cases tags <;> simp [dedup, List.mem_filter]
 
-/-- With `--keep`, when the requested product is not set up beforehand, every product that was set up retains its
-version (D21 is the excluded class: the requested product already set up, in which case it is unwound together with
-its dependencies before `keep` is consulted).  Every database, every other flag, every fuel. -/
+private theorem aget_alreadyOfEnvD (db : Db) (l : List (Name × Ver)) (m : Name) (v : Ver) (h : aget l m = some v)
+    (hd : Decd db m v) :
+    ∃ d, aget (l.filterMap (fun (nv : Name × Ver) => (db.lookup (nv.1, nv.2)).map (fun d => (nv.1, ((d, none) : Decl × Option VroEnt))))) m
+      = some (d, none) ∧ d.ver = v := by
+  induction l with
+  | nil => simp [aget] at h
+  | cons p rest ih =>
+    obtain ⟨n', v'⟩ := p
+    by_cases hn : n' = m
+    · subst hn
+      simp [aget] at h; subst h
+      obtain ⟨d', hd'⟩ := hd
+      simp only [List.filterMap_cons, hd', Option.map_some]
+      exact ⟨d', by simp [aget], (lookup_some db _ d' hd').2.2⟩
+    · simp [aget, hn] at h
+      obtain ⟨d, hg, hv⟩ := ih h
+      refine ⟨d, ?_, hv⟩
+      simp only [List.filterMap_cons]
+      cases hl : db.lookup (n', v') with
+      | none => simpa using hg
+      | some d0 => simp [aget, hn]; exact hg
+
+/-- With `--keep`, every product `m` other than the requested one that is set up — its record names a *declared* version;
+a record `findSetupProduct` cannot find is not a set-up product — keeps its version, unless the requested product is
+itself set up beforehand (in a declared version `sd`, the same one included) **and** a dependency line of `sd`'s own table
+leads to `m` (`ReachFrom db sd m`): exactly D21's class (`sd` is unwound together with what its table names before
+`keep` is consulted; witness `C04_keep_drop_witness`).  Every database (name cycles included), every prior environment
+(records of undeclared versions included), every other flag, every fuel. -/
 theorem C04_keep_partial (db : Db) (fuel : Nat) (r : Request) (hkeep : r.keep = true) (e : Setup.Env) (s' : St)
-    (hdecl : AllDeclared db e) (hnot : e.rec? r.name = none)
-    (h : runSetup db fuel r e = .ok s') : ∀ m v, e.rec? m = some v → s'.env.rec? m = some v := by
+    (h : runSetup db fuel r e = .ok s') :
+    ∀ m v, e.rec? m = some v → (∃ d, db.lookup (m, v) = some d) → m ≠ r.name →
+      (∀ sd, setupProd db e r.name = some sd → ¬ ReachFrom db sd m) → s'.env.rec? m = some v := by
   unfold runSetup at h
   cases fuel with
   | zero => simp [setup_zero] at h
@@ -128,29 +236,35 @@ theorem C04_keep_partial (db : Db) (fuel : Nat) (r : Request) (hkeep : r.keep = 
       have hpd : pickDecl (r.cfg db).db (St.init e).cache d = d := rfl
       rw [hpd] at h
       generalize hcache : ((St.init e).afterResolve (r.cfg db) 0 r.vro r.name r.version none).cache = c0
-      -- the registered state mirrors every record
       have hreg : register (r.cfg db) 0 d reason ((St.init e).afterResolve (r.cfg db) 0 r.vro r.name r.version none) =
           ⟨e, [], [], aset (alreadyOfEnv db e) d.name (d, reason), c0⟩ := by
         rw [← hcache]; simp [register, St.init, St.afterResolve, Request.cfg]
       rw [hreg] at h
-      have hmir : Mirror ⟨e, [], [], aset (alreadyOfEnv db e) d.name (d, reason), c0⟩ := by
-        intro m v hmv
-        have hne : m ≠ d.name := by intro e'; rw [e', hname, hnot] at hmv; cases hmv
-        obtain ⟨d', hg, hv⟩ := aget_alreadyOfEnv db e.recs hdecl m v hmv
-        refine ⟨d', none, ?_, hv⟩
-        show aget (aset (alreadyOfEnv db e) d.name (d, reason)) m = _
-        rw [aget_aset_other _ _ _ _ hne]; exact hg
       have hal : AlreadyOK (r.cfg db).db (aset (alreadyOfEnv db e) d.name (d, reason)) :=
         alreadyOK_aset _ _ (alreadyOfEnv_ok db e) d reason hc
       have hvro : VroEnt.keep ∈ r.vro := by
         unfold Request.vro; rw [hkeep]; exact selectVRO_keep _ _
-      have hpost := install_keep (r.cfg db) (setup (r.cfg db) k) (setup_alOK _ k) (setup_keepSpec _ k) 0 false r.vro hvro
-        d reason hc ⟨e, [], [], aset (alreadyOfEnv db e) d.name (d, reason), c0⟩ hal hmir (by
-          intro sd hsp
-          obtain ⟨_, _, hr⟩ := setupProd_some _ _ _ _ hsp
-          rw [hname, hnot] at hr; cases hr)
-      rw [h] at hpost
-      exact hpost.2.1
+      intro m v hmv hdv hne hreach
+      refine install_keep_topD (r.cfg db) k false r.vro hvro d reason hc
+        ⟨e, [], [], aset (alreadyOfEnv db e) d.name (d, reason), c0⟩ s' hal ?_ h m v (by rw [hname]; exact hne) hmv hdv
+        (by rw [hname]; exact hreach)
+      intro m' v' hne' hmv' hd'
+      obtain ⟨d', hg, hv⟩ := aget_alreadyOfEnvD db e.recs m' v' hmv' hd'
+      refine ⟨d', none, ?_, hv⟩
+      show aget (aset (alreadyOfEnv db e) d.name (d, reason)) m' = _
+      rw [aget_aset_other _ _ _ _ hne']; exact hg
+
+/-- the form of the earlier rounds — the requested product is not set up beforehand, records name declared versions —
+is a corollary -/
+theorem C04_keep_fresh (db : Db) (fuel : Nat) (r : Request) (hkeep : r.keep = true) (e : Setup.Env) (s' : St)
+    (hdecl : AllDeclared db e) (hnot : e.rec? r.name = none)
+    (h : runSetup db fuel r e = .ok s') : ∀ m v, e.rec? m = some v → s'.env.rec? m = some v := by
+  intro m v hmv
+  refine C04_keep_partial db fuel r hkeep e s' h m v hmv (hdecl m v (aget_mem _ _ _ hmv)) ?_ ?_
+  · intro e'; rw [e', hnot] at hmv; cases hmv
+  · intro sd hsp
+    obtain ⟨_, _, hr⟩ := setupProd_some _ _ _ _ hsp
+    rw [hnot] at hr; cases hr
 
 /-! ## D21: `--keep` does not protect the dependencies of the requested product's previously set-up version -/
 
@@ -203,7 +317,7 @@ theorem C04_narrow_frame_fails :
           ⟨[(nP, v2), (nX, v1)], [(nP, .own (nP, v2) []), (nX, .own (nX, v1) [])], [], []⟩, ?_, ?_, ?_, ?_, ?_, ?_⟩ <;>
     decide +kernel
 
-/-- the hypotheses of `C04_keep_partial` are satisfiable with something to keep: `c 1` is set up, `a` is not -/
+/-- the hypotheses of `C04_keep_fresh` are satisfiable with something to keep: `c 1` is set up, `a` is not -/
 example : AllDeclared dbKeep ⟨[(nC, v1)], [(nC, .own (nC, v1) [])], [], []⟩ ∧
     (⟨[(nC, v1)], [(nC, .own (nC, v1) [])], [], []⟩ : Setup.Env).rec? nA = none := by
   constructor
@@ -211,6 +325,30 @@ example : AllDeclared dbKeep ⟨[(nC, v1)], [(nC, .own (nC, v1) [])], [], []⟩ 
     simp at h; obtain ⟨rfl, rfl⟩ := h
     exact ⟨⟨nC, v1, [3], []⟩, by decide +kernel⟩
   · decide +kernel
+
+/-- … and with the requested product set up beforehand: in D21's own history (`a 1`, `c 1` set up; `setup --keep a 3`)
+a bystander `x` that `a 1`'s table does not name satisfies the hypothesis of `C04_keep_partial`, `c` does not -/
+example : (∀ sd, setupProd dbKeep ⟨[(nC, v1), (nA, v1)], [], [], []⟩ nA = some sd → ¬ ReachFrom dbKeep sd [120]) ∧
+    (∃ sd, setupProd dbKeep ⟨[(nC, v1), (nA, v1)], [], [], []⟩ nA = some sd ∧ ReachFrom dbKeep sd nC) := by
+  have hsp : setupProd dbKeep ⟨[(nC, v1), (nA, v1)], [], [], []⟩ nA =
+      some ⟨nA, v1, [1], [(.always, .dep nC false false none none [] false)]⟩ := by decide +kernel
+  constructor
+  · intro sd h
+    rw [hsp] at h; cases h
+    intro ⟨g, n, o, j, v, x, t, kl, k, hg, hw⟩
+    simp at hg
+    obtain ⟨_, rfl, _⟩ := hg
+    have key : ∀ k n, Within dbKeep nC k n → n = nC := by
+      intro k n hw
+      induction hw with
+      | root => rfl
+      | step _ hd hn hg ih =>
+        subst ih
+        simp [dbKeep] at hd
+        rcases hd with rfl | rfl | rfl <;> simp at hg <;> simp [nA, nC] at hn
+    have := key k _ hw
+    simp [nC] at this
+  · exact ⟨_, hsp, .always, nC, false, false, none, none, [], false, 0, by simp, Within.root⟩
 
 /-- a product outside the reach of the request exists in `dbKeep`: nothing leads from `c` to `a` -/
 example : ∀ k, ¬ Within dbKeep nC k nA := by
@@ -225,5 +363,21 @@ example : ∀ k, ¬ Within dbKeep nC k nA := by
       rcases hd with rfl | rfl | rfl <;> simp at hg <;> simp [nA, nC] at hn
   have := key k nA h
   simp [nA, nC] at this
+
+/-- the hypotheses of the three theorems above are satisfiable: `dbKeep` has own-directory tables only and defines no alias -/
+example : OwnTables dbKeep ∧ ∀ key, ¬ AliasOf dbKeep (fun _ n => ∃ k, Within dbKeep nA k n) key := by
+  refine ⟨ownTables_of_check _ (by decide +kernel), ?_⟩
+  intro key ⟨d, hd, _, g, val, hg⟩
+  simp [dbKeep] at hd
+  rcases hd with rfl | rfl | rfl <;> simp at hg
+
+def nB9 : Name := [98]
+def v9 : Ver := ([57], 0)
+
+/-- the hypotheses of `C04_keep_partial` tolerate a record of an undeclared version (`b 9`): it is not a set-up product,
+`c 1` beside it is kept -/
+example : (⟨[(nB9, v9), (nC, v1)], [], [], []⟩ : Setup.Env).rec? nC = some v1 ∧ (∃ d, dbKeep.lookup (nC, v1) = some d) ∧
+    dbKeep.lookup (nB9, v9) = none := by
+  refine ⟨by decide +kernel, ⟨⟨nC, v1, [3], []⟩, by decide +kernel⟩, by decide +kernel⟩
 
 end EupsModel.C04
